@@ -8,16 +8,150 @@ import (
 	"fmt"
 	"math/rand"
 	"os"
+	"runtime"
+	"sort"
 	"strconv"
 	"strings"
 	"sync"
+	"sync/atomic"
 	"testing"
+	"time"
 )
 
 type verifOut struct {
 	mu sync.Mutex
 	w  *bufio.Writer
 	f  *os.File
+
+	// hang watchdog (see verifWatch)
+	nlines         atomic.Int64
+	lastCs, lastOp string        // of the last record written (under mu)
+	curCs          string        // set by begin: the case being run and how to print its operations so far
+	curOp          func() string //   (for harnesses that write one record per case, at its end)
+	closed         atomic.Bool
+	noWatch        atomic.Bool // a harness with a watchdog of its own switches the generic one off
+}
+
+// begin tells the watchdog which case is running (harnesses that write a case's record only at its end).
+func (o *verifOut) begin(cs string, op func() string) {
+	o.mu.Lock()
+	o.curCs, o.curOp = cs, op
+	o.mu.Unlock()
+}
+
+// verifHangAfter: how long (REAL time) no record may be written while a goroutine of a synctest bubble is
+// blocked, not durably, in SDK code, before the run is declared hung.
+const verifHangAfter = 90 * time.Second
+
+// verifWatch is the generic hang watchdog of the synctest harnesses.  A goroutine of a bubble that blocks on
+// something synctest does not consider durable (a sync.Mutex, a package-level channel) keeps the bubble from
+// ever becoming idle: virtual time stops, synctest.Wait never returns, no deadlock is reported and the test
+// would only end at its timeout, without a record of what happened.  This goroutine (outside every bubble)
+// therefore watches, in real time, the number of records written; when none was written for verifHangAfter
+// AND two goroutine dumps taken 5 s apart show the same bubble goroutine blocked (not durably, not running)
+// with the same innermost non-runtime frame in SDK code (not in a zz_verif file), it writes a final record
+//   <case> \t verif-hang <ops of the case so far> \t hang blocked=<state>:<func>@<file:line>;… \t hang
+// flushes and ends the process; the records written so far are evaluated as usual and every driver answers a
+// verif-hang record with the clause "the implementation hung" (Base/Proto.lean).
+func verifWatch(o *verifOut) {
+	last, since := int64(-1), time.Now()
+	for !o.closed.Load() {
+		time.Sleep(2 * time.Second)
+		if o.noWatch.Load() {
+			return
+		}
+		n := o.nlines.Load()
+		if n != last {
+			last, since = n, time.Now()
+			continue
+		}
+		if time.Since(since) < verifHangAfter {
+			continue
+		}
+		a := verifBlocked()
+		if len(a) == 0 {
+			continue
+		}
+		time.Sleep(5 * time.Second)
+		if o.nlines.Load() != last || o.closed.Load() {
+			continue
+		}
+		b := verifBlocked()
+		var same []string
+		for g, w := range a {
+			if b[g] == w {
+				same = append(same, w)
+			}
+		}
+		if len(same) == 0 {
+			continue
+		}
+		sort.Strings(same)
+		if len(same) > 6 {
+			same = same[:6]
+		}
+		o.mu.Lock()
+		cs, op := o.lastCs, "after "+o.lastOp
+		if o.curOp != nil {
+			cs, op = o.curCs, o.curOp()
+		}
+		fmt.Fprintf(o.w, "%s\tverif-hang %s\thang blocked=%s\thang\n", cs, op, strings.Join(same, ";"))
+		o.w.Flush()
+		o.mu.Unlock()
+		os.Exit(0)
+	}
+}
+
+// verifBlocked maps the id of every goroutine of a synctest bubble that is blocked but not durably (which is
+// what keeps the bubble from becoming idle) and whose innermost non-runtime frame is SDK code to
+// "<state>:<func>@<file:line>".
+func verifBlocked() map[string]string {
+	buf := make([]byte, 8<<20)
+	buf = buf[:runtime.Stack(buf, true)]
+	res := map[string]string{}
+	for _, g := range strings.Split(string(buf), "\n\n") {
+		lines := strings.Split(g, "\n")
+		if len(lines) < 3 || !strings.Contains(lines[0], "synctest bubble") || strings.Contains(lines[0], "durable") ||
+			strings.Contains(lines[0], "[running") || strings.Contains(lines[0], "[runnable") || strings.Contains(lines[0], "[syscall") {
+			continue
+		}
+		hdr := strings.Fields(lines[0])
+		if len(hdr) < 2 {
+			continue
+		}
+		state := lines[0]
+		if i, j := strings.Index(state, "["), strings.Index(state, "]"); i >= 0 && j > i {
+			state = strings.Split(state[i+1:j], ",")[0]
+		}
+		for k := 1; k+1 < len(lines); k += 2 {
+			fn, loc := lines[k], strings.TrimSpace(lines[k+1])
+			if strings.HasPrefix(fn, "created by") {
+				break
+			}
+			if strings.HasPrefix(fn, "runtime.") || strings.HasPrefix(fn, "sync.") || strings.HasPrefix(fn, "sync/") || strings.HasPrefix(fn, "internal/") ||
+				strings.HasPrefix(fn, "testing/synctest.") || strings.HasPrefix(fn, "context.") || strings.HasPrefix(fn, "time.") {
+				continue
+			}
+			if strings.Contains(loc, "zz_verif") || !strings.Contains(fn, "modelcontextprotocol/go-sdk") {
+				break // blocked in harness code or in a library called from the harness: not a verdict
+			}
+			if i := strings.LastIndex(loc, "/"); i >= 0 {
+				loc = loc[i+1:]
+			}
+			if i := strings.Index(loc, " "); i >= 0 {
+				loc = loc[:i]
+			}
+			if i := strings.LastIndex(fn, "("); i > 0 {
+				fn = fn[:i]
+			}
+			if i := strings.LastIndex(fn, "/"); i >= 0 {
+				fn = fn[i+1:]
+			}
+			res[hdr[1]] = strings.ReplaceAll(state, " ", "-") + ":" + fn + "@" + loc
+			break
+		}
+	}
+	return res
 }
 
 // verifOpen opens $VERIF_OUT (or skips the test when the harness is not driven by ./check).
@@ -30,7 +164,9 @@ func verifOpen(t *testing.T) *verifOut {
 	if err != nil {
 		t.Fatal(err)
 	}
-	return &verifOut{w: bufio.NewWriterSize(f, 1<<20), f: f}
+	o := &verifOut{w: bufio.NewWriterSize(f, 1<<20), f: f}
+	go verifWatch(o)
+	return o
 }
 
 // line writes one protocol record: case, ops, implementation observation, tags.
@@ -38,6 +174,8 @@ func (o *verifOut) line(cs string, op string, obs string, tags ...string) {
 	o.mu.Lock()
 	defer o.mu.Unlock()
 	fmt.Fprintf(o.w, "%s\t%s\t%s\t%s\n", cs, op, obs, strings.Join(tags, ","))
+	o.lastCs, o.lastOp = cs, op
+	o.nlines.Add(1)
 }
 
 func (o *verifOut) flush() {
@@ -47,6 +185,7 @@ func (o *verifOut) flush() {
 }
 
 func (o *verifOut) close() {
+	o.closed.Store(true)
 	o.mu.Lock()
 	defer o.mu.Unlock()
 	o.w.Flush()
